@@ -16,6 +16,11 @@ a child descriptor is `<L|N>/<digest>/<urls>/<ann>` (L = layer media type).
         -> err pf=<n> | ok name=<..> target=<..> urls=<..> nb=<d>:<urls>;… pf=<n>
      (labels of child i after the writer, minus keys `dels`, plus bindings `sets`;
       reftable = `~` or `<ref>=ok:<spec>` / `<ref>=err` joined by `,` — the answers of reference.Parse)
+  mount <i> <dels> <sets> <reftable> <dflt> <c0,c1,…>
+        -> err | ok name=<..> target=<..> urls=<..> nb=<d>:<urls>;… pf=<c>
+     (what fs.Mount hands to the resolver for those labels: pre-resolved neighbours de-duplicated by
+      digest and sorted (they are resolved concurrently); pf = the largest of the ascending thresholds
+      c0,c1,… not above the prefetch size in force, negative sizes counting as 0)
   awv <key> <values>                           -> <value> valid=<0|1>
   pf <str> <dflt>                              -> <n>
   dig <str>                                    -> ok | err
@@ -77,6 +82,17 @@ def canon (m : Labels) : Labels :=
     | [], _ => []
     | (k, v) :: r, seen => if seen.contains k then dedup r seen else (k, v) :: dedup r (k :: seen)
   (dedup m []).foldr insertKV []
+
+def insertNb (p : Str × List Str) : List (Str × List Str) → List (Str × List Str)
+  | [] => [p]
+  | q :: qs => if strLt p.1 q.1 then p :: q :: qs else q :: insertNb p qs
+
+/-- neighbours as a set keyed by digest (first occurrence), sorted by digest. -/
+def canonNb (m : List (Str × List Str)) : List (Str × List Str) :=
+  let rec dedup : List (Str × List Str) → List Str → List (Str × List Str)
+    | [], _ => []
+    | (k, v) :: r, seen => if seen.contains k then dedup r seen else (k, v) :: dedup r (k :: seen)
+  (dedup m []).foldr insertNb []
 
 def showMap (m : Labels) : String :=
   let c := canon m
@@ -171,6 +187,23 @@ def step (s : St) : List String → St × String
         | some (some src) =>
           (s, s!"ok name={hexS src.name} target={hexS src.target} urls={showList src.urls} nb={showNb src.neighbours} pf={pf}")
     | _, _, _, _, _, _ => (s, "bad-op")
+  | ["mount", i, dels, sets, rt, dflt, cands] =>
+    match parseNat? i, parseList? dels, parseMap? sets, parseRefTable? rt, parseInt? dflt,
+      (cands.splitOn ",").mapM parseInt?, s.out with
+    | some i, some dels, some sets, some rt, some dflt, some cands, .ok cs =>
+      match cs[i]? with
+      | none => (s, "bad-op")
+      | some c =>
+        let base := (c.ann.getD []).filter fun p => !dels.contains p.1
+        let labels := sets.foldl (fun m p => set m p.1 p.2) base
+        match mountView (refOracle rt) dflt labels with
+        | none => (s, "err")
+        | some v =>
+          let nb := canonNb v.preResolve
+          let pf := if v.prefetch < 0 then 0 else v.prefetch
+          let bucket := cands.foldl (fun acc c => if c ≤ pf then c else acc) 0
+          (s, s!"ok name={hexS v.name} target={hexS v.target} urls={showList v.urls} nb={showNb nb} pf={bucket}")
+    | _, _, _, _, _, _, _ => (s, "bad-op")
   | ["awv", key, vals] =>
     match unhexS? key, parseList? vals with
     | some key, some vals =>
